@@ -77,7 +77,7 @@ class Prop(PropBase):
 
     def stream(self, rng, t, slot, sname, par=False, tz=0):
         """one instance's scenario text (as instance 0) with the variant forced by its slot"""
-        cfg = scen.rand_cfg(rng, dense=rng.randrange(2), lclock=1 if par else rng.randrange(2), pktcb=1 if par else rng.randrange(2), wait=rng.randrange(2), tz=tz,
+        cfg = scen.rand_cfg(rng, dense=rng.randrange(2), lclock=1 if par else rng.randrange(2), pktcb=1 if par else rng.randrange(2), wait=0 if par else rng.randrange(2), tz=tz,
                             **(dict(mode=3, nblk=rng.choice([1, 2, 5])) if rng.random() < 0.6 else {}))
         kw = dict(host=not cfg.lclock, residual=True, temp_query=True)
         if t == 'RSBP':
@@ -86,7 +86,9 @@ class Prop(PropBase):
         if t in ('RS16', 'RSHELIOS_16P'):
             kw['dual'] = bool(slot % 2)
         if par:
-            kw['malformed_p'] = 0.0; kw['badblk_p'] = 0.0
+            # concurrent runs stay clear of throttled error reports: LIMIT_CALL's process-wide clock is unsynchronised by design and
+            # error reports are outside the property
+            kw['malformed_p'] = 0.0; kw['badblk_p'] = 0.0; kw['difop_at'] = 0
         return scen.mixed_scenario(rng, self.L, t, sname, cfg, npk=(rng.choice([4, 6, 8]) if not self.L[t].jumbo else 1), **kw)
 
     def generate(self, rng, tier):
